@@ -2,6 +2,7 @@ package node
 
 import (
 	"runtime"
+	"sync"
 	"sync/atomic"
 	"time"
 
@@ -21,6 +22,13 @@ type application struct {
 	state   int32
 	stopped chan struct{}
 	reason  error
+
+	// a member can terminate before start() has put it into the group (the pid is
+	// known only when spawn returns). Such terminations are kept here while the
+	// application is starting and are processed once it has started.
+	startLock sync.Mutex
+	starting  bool
+	early     map[gen.PID]error
 }
 
 func (a *application) start(mode gen.ApplicationMode, options gen.ApplicationOptionsExtra) error {
@@ -53,6 +61,22 @@ func (a *application) start(mode gen.ApplicationMode, options gen.ApplicationOpt
 	a.reason = nil
 	a.stopped = make(chan struct{})
 
+	a.startLock.Lock()
+	a.starting = true
+	a.early = make(map[gen.PID]error)
+	a.startLock.Unlock()
+	type earlyMember struct {
+		pid    gen.PID
+		reason error
+	}
+	var gone []earlyMember
+	stopStarting := func() {
+		a.startLock.Lock()
+		a.starting = false
+		a.early = nil
+		a.startLock.Unlock()
+	}
+
 	// start items
 	for _, item := range a.spec.Group {
 		opts := gen.ProcessOptionsExtra{
@@ -75,6 +99,7 @@ func (a *application) start(mode gen.ApplicationMode, options gen.ApplicationOpt
 			for _, pid := range started {
 				a.group.Delete(pid)
 			}
+			stopStarting()
 			atomic.StoreInt32(&a.state, int32(gen.ApplicationStateLoaded))
 			for _, pid := range started {
 				a.node.Kill(pid)
@@ -83,13 +108,30 @@ func (a *application) start(mode gen.ApplicationMode, options gen.ApplicationOpt
 		}
 
 		lib.VerifPoint("app.member.spawned", pid.ID)
-		a.group.Store(pid, true)
+		a.startLock.Lock()
+		if reason, terminated := a.early[pid]; terminated {
+			delete(a.early, pid)
+			gone = append(gone, earlyMember{pid, reason})
+		} else {
+			a.group.Store(pid, true)
+		}
+		a.startLock.Unlock()
 	}
+	stopStarting()
 
 	a.node.log.Info("application %s (%s) started", a.spec.Name, a.mode)
 	a.parent = options.CorePID.Node
 
 	a.started = time.Now().Unix()
+
+	// members that were gone before they were known as members are processed
+	// once the application has started (also if the Start callback panics)
+	defer func() {
+		for _, m := range gone {
+			a.group.Store(m.pid, true)
+			a.terminate(m.pid, m.reason)
+		}
+	}()
 
 	if lib.Recover() {
 		defer func() {
@@ -155,7 +197,14 @@ func (a *application) stop(force bool, timeout time.Duration) error {
 }
 
 func (a *application) terminate(pid gen.PID, reason error) {
-	if _, exist := a.group.LoadAndDelete(pid); exist == false {
+	a.startLock.Lock()
+	_, exist := a.group.LoadAndDelete(pid)
+	if exist == false && a.starting {
+		// it might be a member start() has not registered yet
+		a.early[pid] = reason
+	}
+	a.startLock.Unlock()
+	if exist == false {
 		// it was started as a child process somewhere deep in the supervision tree
 		// do nothing.
 		return
